@@ -35,7 +35,7 @@ def describe(tier):
             "reference transducer, repairs a glued closing quote without touching whitespace and labels iff de-escaping changed the text; the "
             "comparison is on the complete result list, so it is both the forward and the converse direction. (3) PowerShell invocations from a "
             "grammar: token x value-less switches x EVERY prefix of -encodedcommand x -// style x argument quoting x payload x caret at EVERY "
-            "position (<=1) x prefix context, and plain invocations x enclosing context {none,'..',\"..\",('..'),unclosed variants} x prefix x suffix; FOR-loop / quoted contexts whose opener lies 0..2200 (thorough ..9000) bytes before the token, every distance, with further quotes inside the command; every sequence of 2 (thorough 3) invocations from a 5-menu (plain / encoded, powershell / pwsh) x 5 shared contexts x 3 prefixes x 3 joiners x 3 suffixes, each invocation delimited on its own. "
+            "position (<=1) x prefix context, and plain invocations x enclosing context {none,'..',\"..\",('..'),unclosed variants} x prefix x suffix; FOR-loop / quoted contexts whose opener lies 0..2200 (thorough ..9000) bytes before the token, every distance, with further quotes inside the command; every sequence of 2 (thorough 3) invocations from a 5-menu (plain / encoded, powershell / pwsh) x 5 shared contexts x 3 prefixes x 3 joiners x 3 suffixes, each invocation delimited on its own; EVERY Basic-Multilingual-Plane code point (surrogates excepted) inside an encoded script. "
             "(4) the same cmd reference on every value searched during scans of the shell/pwsh/mix scan-level families (nested contexts, decoded "
             "values). states = distinct inputs, transitions = decoder invocations compared, traces = comparisons with the reference. "
             "Non-trivial = an input on which the reference expects at least one result."
@@ -56,6 +56,7 @@ def plan(tier, seed):
     units += [("ps-enc", tier, i) for i in range(len(PS_TOKENS))]
     units += [("ps-plain", tier)] + [("ps-far", tier, i) for i in range(8)]
     units += [("ps-multi", tier, i) for i in range(len(MULTI_INV))]
+    units += [("ps-codepoints", i, 16) for i in range(16)]
     units += [("stream", u) for u in streams.plan(tier, fams=STREAM_FAMS)]
     units += core.interp_axis([("ps-plain", tier), ("ps-multi", tier, 0), ("ps-multi", tier, 1), ("ps-far", tier, 0), ("ps-enc", tier, 1)] + [("cmd", tier, u[2]) for u in CMD.units(tier)[:4]] + [("carets", tier, u[2]) for u in CARETS.units(tier)[:2]])
     return units
@@ -328,6 +329,22 @@ def run_unit(unit, rec):
             rec.mark("states", data, True)
             check_ps(rec, data, start, exp, w, len(data))
         rec.sample({"family": "ps-plain", "last": data})
+    elif kind == "ps-codepoints":
+        # EVERY code point of the Basic Multilingual Plane (surrogates excepted) inside the encoded script: the value is the UTF-16 decoding, no more
+        n = 0
+        for cp in range(0x20 + unit[1], 0x10000, unit[2]):
+            if 0xD800 <= cp <= 0xDFFF:
+                continue
+            script = "W " + chr(cp) + "h" + chr(cp)
+            payload = base64.b64encode(script.encode("utf-16le"))
+            for token, sw in ((b"powershell", []), (b"pwsh", [b"-nop"])):
+                inv = token + b"".join(b" " + s for s in sw) + b" -enc " + payload
+                data = b"x;" + inv
+                rec.mark("states", 0, True)
+                check_ps(rec, data, 2, ps_expected_enc(data, 2, len(data), token, sw, payload),
+                         {"kind": "ps-enc", "data": data, "start": 2, "end": len(data), "token_len": len(token), "switches": sw, "payload": payload}, len(data))
+                n += 1
+        rec.sample({"family": "ps-codepoints", "part": unit[1], "cases": n})
     elif kind == "ps-multi":
         n = 0
         for data, start, exp, w in ps_multi_cases(unit[1], unit[2]):
